@@ -142,10 +142,29 @@ def _locals_bound(fn):
     return out
 
 
-def _is_fresh_msg(value):
-    return (isinstance(value, ast.Call) and not value.args and not value.keywords
+def _is_fresh_msg(value, fns=None, depth=0):
+    """`DecentralizedEnvironmentalNotificationMessage()` or a call of a method of the class (`self.<builder>(..)`) every
+    `return` of which returns a local bound (only) to such a fresh object"""
+    if not isinstance(value, ast.Call):
+        return False
+    if (not value.args and not value.keywords
             and ((isinstance(value.func, ast.Name) and value.func.id == MSG_CLASS)
-                 or (isinstance(value.func, ast.Attribute) and value.func.attr == MSG_CLASS)))
+                 or (isinstance(value.func, ast.Attribute) and not _is_self_attr_any(value.func) and value.func.attr == MSG_CLASS))):
+        return True
+    if fns and depth < 3 and _is_self_attr_any(value.func) and value.func.attr in fns:
+        fn = fns[value.func.attr]
+        rets = [n for n in ast.walk(fn) if isinstance(n, ast.Return)]
+        if not rets:
+            return False
+        for r in rets:
+            if not isinstance(r.value, ast.Name):
+                return False
+            binds = [st.value for st in ast.walk(fn) if isinstance(st, ast.Assign)
+                     for t in st.targets if isinstance(t, ast.Name) and t.id == r.value.id]
+            if not binds or not all(_is_fresh_msg(b, fns, depth + 1) for b in binds):
+                return False
+        return True
+    return False
 
 
 def _bindings(stmts, name):
@@ -165,7 +184,7 @@ def _bindings(stmts, name):
     return out
 
 
-def _transmit_codes(fn):
+def _transmit_codes(fn, fns=None):
     """code of the argument of every `self.transmit_denm(..)` in `fn` (see module docstring)"""
     codes = []
 
@@ -198,9 +217,11 @@ def _transmit_codes(fn):
             inner = _bindings(loop_body, arg.id)
             every = [v for st in ast.walk(fn) if isinstance(st, ast.Assign)
                      for t in st.targets if isinstance(t, ast.Name) and t.id == arg.id for v in [st.value]]
-            if every and all(_is_fresh_msg(v) for v in every):
+            if every and all(_is_fresh_msg(v, fns) for v in every):
                 return 0 if len(inner) == len(every) else 1
             return 3
+        if _is_fresh_msg(arg, fns):
+            return 0                      # built in place: `self.transmit_denm(self._build(..))`
         return 2 if _root(arg) == "self" else 3
 
     visit(fn.body, fn.body)
@@ -242,7 +263,7 @@ def analyse_body():
                     stores += 1
             if _is_self_attr_any(n) and n.attr not in fns:
                 attrs.add(n.attr)
-        codes += _transmit_codes(fn)
+        codes += _transmit_codes(fn, fns)
     return {"reach": reach, "stores": stores, "attrs": sorted(attrs), "transmit": codes}
 
 
